@@ -54,8 +54,9 @@ func (s *FuzzServiceStub) ImportBlock(block types.Block) (types.StateRoot, error
 	// Head of the in-memory chain before this import touches anything. If the
 	// STF rejects the block, the node is rolled back to it.
 	var (
-		prevHead    types.HeaderHash
-		hasPrevHead bool
+		prevHead     types.HeaderHash
+		hasPrevHead  bool
+		prevAncestry = cs.GetAncestry()
 	)
 
 	blocks := cs.GetBlocks()
@@ -132,6 +133,11 @@ func (s *FuzzServiceStub) ImportBlock(block types.Block) (types.StateRoot, error
 			if rerr := cs.RestoreBlockAndState(prevHead); rerr != nil {
 				logger.Errorf("%s failed to roll back to 0x%x... after rejected block: %v", ctx, prevHead[:8], rerr)
 			}
+			// The restores above cut the ancestry list back to the restored
+			// header, or empty it when that header is no longer in it (a
+			// rejected block on a fork); put it back as it was.
+			cs.ClearAncestry()
+			cs.AppendAncestry(prevAncestry)
 		}
 		return types.StateRoot{}, err
 	}
